@@ -66,6 +66,10 @@ CHECKS = {
             "Decides the structural necessary conditions of the CSV round trip for every store: each of the six simple selector kinds the writer emits has an arm in the reader's simple branch and in its complex branch; every Ok exit of the row reader is dominated by with_target (rows without data keep their target); all eight column writers expand both internal ranged selector kinds into one ';' slot per contained selector, so columns stay aligned; Display and TryFrom<&str> for Cursor are mutually inverse for both alignments including \"-0\" (evaluated from the extracted bodies); the writer appends exactly one data id and one set id per data item; the three row literals build shared columns identically (one known finding: the Id column). Value text and files are not decided.",
             "trusts syn/rustc, the evaluator; identifiers containing ';' are outside the claim",
             "DESIGN.md section 4 C15", "syn+mir"),
+    "C17": ("other", "string-context discipline of the hand-written JSON exporter (syn): JSON context of every format placeholder by quote parity; separator/bracket typestate by path-sensitive abstract interpretation of the string accumulators with per-context function summaries; exhaustive typed rendering per DataValue variant; sub-selector iteration not narrowed",
+            "Decides, for every input, the well-formedness clauses that are visible in the shape of the exporter: every placeholder inside a JSON string literal receives a number, a safe-charset value or the output of the complete escaper, and every placeholder in value position the output of a JSON producer (ESC); the escaper is complete (serde_json, or hand-written over chars with quote, backslash and control range) and text is never rebuilt from single bytes (BYTES); value_to_json has an explicit arm per DataValue variant whose rendering fits the payload type (TYPE); on every path through to_webannotation / output_selector / output_subselectors / serialize_context* members and elements are separated by exactly one comma, brackets balance and each function returns a complete value (SEP); every sub-selector is emitted, start/end come from begin()/end() of one selection (TARGET). Faithfulness of the body beyond JSON types and the offset arithmetic behind begin()/end() are not decided (offsets: C04/C12).",
+            "trusts syn's parse, serde_json's string serialiser as the complete escaper, and that chrono's to_rfc3339 and nanoid emit no quote, backslash or control character; the separator typestate treats opaque conditions as free booleans (correlated by text), so infeasible paths can only add findings, never hide one",
+            "DESIGN.md section 4 C17", "syn"),
 }
 
 NA = {
